@@ -373,6 +373,7 @@ type c20Case struct {
 	Inj       []int  `json:"inj"`
 	Style     string `json:"style"`
 	Form      string `json:"form"`
+	Carrier   string `json:"carrier"`
 	Pos       int    `json:"pos"`
 	NPos      int    `json:"npos"`
 	ExpL      bool   `json:"expl"`
@@ -447,15 +448,18 @@ var c20Required = map[string][]string{
 	"yaml.ReplaceReference":    {"From", "To"},
 	"yaml.AddFields":           {"To"},
 	"yaml.NameAnonymousStruct": {"Field"},
-	"yaml.RetypeObject":        {"Object"},
+	"yaml.RetypeObject":        {"Object", "As"},
 	"yaml.HintObject":          {"Object"},
 	"yaml.DuplicateObject":     {"Object", "As"},
-	"yaml.AddObject":           {"Object"},
+	"yaml.AddObject":           {"Object", "As"},
 	"yaml.RenameObject":        {"From"},
-	"yaml.RetypeField":         {"Field"},
+	"yaml.RetypeField":         {"Field", "As"},
 	"yaml.Veneers":             {"Package"},
-	// not checked at load time, added so that generated snippets are real type / field descriptions
+	// type definitions are checked at load time (Type.CheckWellFormed) in add_fields / add_object / retype_*: kind and
+	// definition must match, enums need a value, containers their element types
 	"ast.ArrayType":   {"ValueType"},
+	"ast.EnumType":    {"Values"},
+	"ast.EnumValue":   {"Name", "Type", "Value"},
 	"ast.MapType":     {"IndexType", "ValueType"},
 	"ast.RefType":     {"ReferredPkg", "ReferredType"},
 	"ast.ScalarType":  {"ScalarKind"},
@@ -482,9 +486,11 @@ var c20KindOfMember = map[string]string{
 }
 
 type treeNode struct {
-	At   []string `json:"at"`
-	Keys []string `json:"keys"`
-	Ldr  string   `json:"ldr"` // loader node id ("" below free-form nodes / unknown)
+	At    []string `json:"at"`
+	Keys  []string `json:"keys"`
+	Nulls []string `json:"nulls"` // keys whose value is null
+	Ldr   string   `json:"ldr"`   // loader node id ("" below free-form nodes / unknown)
+	Doc   int      `json:"doc"`   // 1, or 2.. for the further YAML documents of a multi-document file
 }
 
 type injection struct {
@@ -498,7 +504,10 @@ type renderer struct {
 	kl, kp  grammar
 	unknown string
 	file    string
-	stale   []string // companion fields that could not be resolved in the current grammar
+	// siblings: at the root, every OTHER list of mappings of the file kind holds one minimal well-formed entry (a valid
+	// rule in a rule list): the section under test is followed / preceded by other, valid sections
+	siblings bool
+	stale    []string // companion fields that could not be resolved in the current grammar
 }
 
 func (r *renderer) ln(id string) *gNode {
@@ -679,8 +688,14 @@ func (r *renderer) build(c *c20Case, i int, injs *[]injection) any {
 		child := r.build(c, i+1, injs)
 		for d := len(next.At); d > len(st.At)+1; d-- {
 			lst := []any{}
-			if isRuleList(c.File, next.At[:d]) && c.NPos > 1 {
-				filler := func() any { return r.fillerRule(next.Ldr) }
+			if d == len(next.At) && i+1 == innermostListStep(c) && c.NPos > 1 {
+				// the entry under test at position Pos of NPos entries; the others are minimal well-formed entries
+				filler := func() any {
+					if isRuleList(c.File, next.At[:d]) {
+						return r.fillerRule(next.Ldr)
+					}
+					return r.minimal(next.Ldr, 0)
+				}
 				for p := 0; p < c.Pos; p++ {
 					lst = append(lst, filler())
 				}
@@ -695,18 +710,40 @@ func (r *renderer) build(c *c20Case, i int, injs *[]injection) any {
 		}
 		m[key] = child
 	} else if c.Leaf.K != "" {
-		switch c.Leaf.Why {
-		case "only-published":
+		switch {
+		case c.Form == "null":
+			m[c.Leaf.K] = nil
+		case c.Form == "empty":
+			m[c.Leaf.K] = r.emptyValue(c.Leaf.Ldr)
+		case c.Leaf.Why == "only-published":
 			m[c.Leaf.K] = r.minimalPub(c.Leaf.Pub, 0)
 		default:
 			m[c.Leaf.K] = r.valueFor(n, c.Leaf.K, 0)
 		}
 	}
-	if last && c.Form == "null" {
+	if last && c.Leaf.K == "" && c.Form == "null" {
 		return nil
+	}
+	if last && c.Leaf.K == "" && c.Form == "empty" {
+		return map[string]any{} // really empty: no companion keys
 	}
 	if n != nil && n.Kind == "map" {
 		r.companions(m, n, 0)
+	}
+	if i == 1 && r.siblings && n != nil {
+		for _, kk := range n.Keys {
+			ln := r.ln(kk.C)
+			if _, present := m[kk.K]; present || ln == nil || ln.Kind != "list" {
+				continue
+			}
+			if el := r.ln(ln.Elem); el != nil && el.Kind == "map" {
+				if isRuleList(c.File, []string{kk.K, "[]"}) {
+					m[kk.K] = []any{r.fillerRule(ln.Elem)}
+				} else {
+					m[kk.K] = []any{r.minimal(ln.Elem, 0)}
+				}
+			}
+		}
 	}
 	if contains(c.Inj, i) {
 		key := r.unknown
@@ -714,10 +751,18 @@ func (r *renderer) build(c *c20Case, i int, injs *[]injection) any {
 			prev := c.Steps[i-2]
 			key = r.unknownKeyFor(r.ln(prev.Ldr), st.At[len(prev.At)])
 		}
-		if c.Style == "case" && n != nil && n.Kind == "map" {
-			// a declared key of this node, first letter in upper case: not a key of the language either
+		if (c.Style == "case" || c.Style == "midcase") && n != nil && n.Kind == "map" {
+			// a declared key of this node with ONE letter in upper case (the first: `Passes`; the one after the last `_`,
+			// else the last: `rename_Object`): differs from a legal key in letter case only, not a key of the language
 			for _, kk := range n.Keys {
-				if v := strings.ToUpper(kk.K[:1]) + kk.K[1:]; v != kk.K {
+				at := 0
+				if c.Style == "midcase" {
+					at = len(kk.K) - 1
+					if u := strings.LastIndex(kk.K, "_"); u >= 0 && u+1 < len(kk.K) {
+						at = u + 1
+					}
+				}
+				if v := kk.K[:at] + strings.ToUpper(kk.K[at:at+1]) + kk.K[at+1:]; v != kk.K {
 					if _, known := n.child(v); !known {
 						key = v
 						break
@@ -725,10 +770,84 @@ func (r *renderer) build(c *c20Case, i int, injs *[]injection) any {
 				}
 			}
 		}
-		m[key] = "x"
+		if c.Style == "param" {
+			key = strings.Replace(key, r.unknown, "%"+r.unknown+"%", 1) // parameters are interpolated in some VALUES, never in keys
+		}
+		if c.Carrier == "merge" {
+			m[c20MergeMark] = map[string]any{key: "x"} // written `<<: {key: x}`: the key arrives through a YAML merge key
+		} else {
+			m[key] = "x"
+		}
 		*injs = append(*injs, injection{At: st.At, Key: key, Ldr: st.Ldr, Pub: st.Pub})
 	}
 	return m
+}
+
+const c20MergeMark = "C20MERGEKEY"
+
+// hoistMerge: the document a YAML processor sees once merge keys are applied
+func hoistMerge(v any) any {
+	switch x := v.(type) {
+	case map[string]any:
+		m := map[string]any{}
+		for k, e := range x {
+			if k == c20MergeMark {
+				for mk, mv := range e.(map[string]any) {
+					m[mk] = mv
+				}
+				continue
+			}
+			m[k] = hoistMerge(e)
+		}
+		return m
+	case []any:
+		l := make([]any, len(x))
+		for i, e := range x {
+			l[i] = hoistMerge(e)
+		}
+		return l
+	}
+	return v
+}
+
+// innermostListStep: index (1-based) of the last step that is an entry of a list: the list `pos` applies to
+func innermostListStep(c *c20Case) int {
+	for i := len(c.Steps); i >= 1; i-- {
+		at := c.Steps[i-1].At
+		if len(at) > 0 && at[len(at)-1] == "[]" {
+			return i
+		}
+	}
+	return 0
+}
+
+// emptyValue: the empty / falsy value of the kind of loader node id
+func (r *renderer) emptyValue(id string) any {
+	n := r.ln(id)
+	if n == nil {
+		return ""
+	}
+	switch n.Kind {
+	case "list":
+		return []any{}
+	case "map":
+		return map[string]any{}
+	case "free":
+		if n.T == "any" {
+			return ""
+		}
+		return map[string]any{}
+	default:
+		switch n.T {
+		case "bool":
+			return false
+		case "int":
+			return 0
+		case "float":
+			return 0.0
+		}
+		return ""
+	}
 }
 
 // fillerRule: a well-formed rule for the other positions of a rule list: first member of the union
@@ -751,7 +870,13 @@ func (r *renderer) tree(v any, at []string, ldr string, out *[]treeNode) {
 			keys = append(keys, k)
 		}
 		sort.Strings(keys)
-		*out = append(*out, treeNode{At: append([]string{}, at...), Keys: keys, Ldr: ldr})
+		nulls := []string{}
+		for _, k := range keys {
+			if x[k] == nil {
+				nulls = append(nulls, k)
+			}
+		}
+		*out = append(*out, treeNode{At: append([]string{}, at...), Keys: keys, Nulls: nulls, Ldr: ldr, Doc: 1})
 		for _, k := range keys {
 			c := ""
 			if n != nil && n.Kind == "map" {
@@ -770,7 +895,7 @@ func (r *renderer) tree(v any, at []string, ldr string, out *[]treeNode) {
 	case nil:
 		// a null entry of a rule list is an entry without keys (`- ~`, a dangling `-`)
 		if isRuleList(r.file, at) {
-			*out = append(*out, treeNode{At: append([]string{}, at...), Keys: []string{}, Ldr: ldr})
+			*out = append(*out, treeNode{At: append([]string{}, at...), Keys: []string{}, Nulls: []string{}, Ldr: ldr, Doc: 1})
 		}
 	}
 }
@@ -785,7 +910,7 @@ var (
 type verdict struct {
 	Accept bool   `json:"accept"`
 	Err    string `json:"err"`
-	Class  string `json:"class"` // ok | key | empty | type | value | panic
+	Class  string `json:"class"` // ok | key | empty | document | type | value | panic
 	Key    string `json:"key"`
 	Type   string `json:"type"`
 }
@@ -802,6 +927,8 @@ func classifyErr(err error) verdict {
 		v.Class, v.Key, v.Type = "key", m[1], m[2]
 	case strings.Contains(msg, "empty rule") || strings.Contains(msg, "empty compiler pass"):
 		v.Class = "empty"
+	case strings.Contains(msg, "additional YAML document"):
+		v.Class = "document" // the file holds a second YAML document: rejected as a whole
 	case strings.Contains(msg, "cannot unmarshal"):
 		v.Class = "type"
 	default:
@@ -851,6 +978,8 @@ type c20Record struct {
 	Loader verdict     `json:"loader"`
 	Routes []c20Route  `json:"routes"`
 	Stale  []string    `json:"stale,omitempty"`
+	Extra  []any       `json:"extra"` // the further YAML documents of the file (after `---`)
+	text   string      // the file as written when it is not simply yaml.Marshal(Doc)
 }
 
 // route: the same document through another entry point by which cog itself reaches the loader
@@ -861,9 +990,10 @@ type c20Route struct {
 
 const c20TinySchema = `{"$schema":"http://json-schema.org/draft-07/schema#","$ref":"#/definitions/Thing","definitions":{"Thing":{"type":"object","properties":{"name":{"type":"string"}}}}}`
 
-// scaffold writes, once per scratch directory, the fixed files of the pipeline routes
-func c20Scaffold(tmp string) {
-	if _, err := os.Stat(filepath.Join(tmp, "schema.json")); err == nil {
+// c20Scaffold writes, once per scratch directory, the fixed files of the routes. The file under test always sits BETWEEN two
+// valid files of its kind (a_valid, <file>, z_valid): a verdict about it must survive the files loaded before and after it.
+func c20Scaffold(tmp string, file string, valid []byte) {
+	if _, err := os.Stat(filepath.Join(tmp, "scaffold-"+file)); err == nil {
 		return
 	}
 	must := func(err error) {
@@ -871,15 +1001,30 @@ func c20Scaffold(tmp string) {
 			panic(err)
 		}
 	}
-	must(os.WriteFile(filepath.Join(tmp, "schema.json"), []byte(c20TinySchema), 0o600))
-	must(os.MkdirAll(filepath.Join(tmp, "veneersdir"), 0o700))
-	input := "  - jsonschema:\n      path: " + filepath.Join(tmp, "schema.json") + "\n      package: thing\n"
-	must(os.WriteFile(filepath.Join(tmp, "route-common.yaml"),
-		[]byte("inputs:\n"+input+"transformations:\n  schemas:\n    - "+filepath.Join(tmp, "passes.yaml")+"\n"), 0o600))
-	must(os.WriteFile(filepath.Join(tmp, "route-input.yaml"),
-		[]byte("inputs:\n"+input+"      transformations:\n        - "+filepath.Join(tmp, "passes.yaml")+"\n"), 0o600))
-	must(os.WriteFile(filepath.Join(tmp, "route-builders.yaml"),
-		[]byte("transformations:\n  builders:\n    - "+filepath.Join(tmp, "veneersdir")+"\noutput:\n  builders: true\n"), 0o600))
+	must(os.WriteFile(filepath.Join(tmp, "scaffold-"+file), nil, 0o600))
+	switch file {
+	case "compiler":
+		must(os.WriteFile(filepath.Join(tmp, "schema.json"), []byte(c20TinySchema), 0o600))
+		for _, n := range []string{"a_valid.yaml", "z_valid.yaml"} {
+			must(os.WriteFile(filepath.Join(tmp, n), valid, 0o600))
+		}
+		files := ""
+		for _, n := range []string{"a_valid.yaml", "passes.yaml", "z_valid.yaml"} {
+			files += "\n        - " + filepath.Join(tmp, n)
+		}
+		input := "  - jsonschema:\n      path: " + filepath.Join(tmp, "schema.json") + "\n      package: thing\n"
+		must(os.WriteFile(filepath.Join(tmp, "route-common.yaml"),
+			[]byte("inputs:\n"+input+"transformations:\n  schemas:"+files+"\n"), 0o600))
+		must(os.WriteFile(filepath.Join(tmp, "route-input.yaml"),
+			[]byte("inputs:\n"+input+"      transformations:"+files+"\n"), 0o600))
+	case "veneers":
+		must(os.MkdirAll(filepath.Join(tmp, "veneersdir"), 0o700))
+		for _, n := range []string{"a_valid.yaml", "z_valid.yaml"} {
+			must(os.WriteFile(filepath.Join(tmp, "veneersdir", n), valid, 0o600))
+		}
+		must(os.WriteFile(filepath.Join(tmp, "route-builders.yaml"),
+			[]byte("transformations:\n  builders:\n    - "+filepath.Join(tmp, "veneersdir")+"\noutput:\n  builders: true\n"), 0o600))
+	}
 }
 
 func c20Guarded(f func() error) (v verdict) {
@@ -891,26 +1036,27 @@ func c20Guarded(f func() error) (v verdict) {
 	return classifyErr(f())
 }
 
-// runRoutes drives the document through the file-name based entry points the pipeline really uses:
+// c20RunRoutes drives the document through the other entry points by which cog itself reaches the loaders:
 //
-//	compiler: CompilerLoader.PassesFrom(files); a pipeline whose transformations.schemas names the file
-//	          (Pipeline.LoadSchemas); a pipeline whose inputs[].jsonschema.transformations names it
-//	veneers:  a pipeline whose transformations.builders names the directory holding the file
-//	          (Pipeline.ContextForLanguage, which loads the veneers before applying them)
+//	compiler: CompilerLoader.PassesFrom(files); a pipeline whose transformations.schemas names the files
+//	          (Pipeline.LoadSchemas); a pipeline whose inputs[].jsonschema.transformations names them
+//	veneers:  VeneersLoader.RewriterFrom(files) with neighbours; a pipeline whose transformations.builders names the
+//	          directory holding the files (Pipeline.ContextForLanguage, which loads the veneers before applying them)
+//	pipeline: PipelineFromFile(file, Parameters(...)) - the call `cog generate --config file --parameters k=v` makes
 //
 // A verdict is only judged when it is about keys / empty rules (classifyErr); anything the pipeline reports
 // after the files were decoded is not.
-func c20RunRoutes(file string, doc []byte, tmp string) []c20Route {
+func c20RunRoutes(file string, doc []byte, tmp string, valid []byte) []c20Route {
 	routes := []c20Route{}
 	switch file {
 	case "compiler":
-		c20Scaffold(tmp)
+		c20Scaffold(tmp, file, valid)
 		p := filepath.Join(tmp, "passes.yaml")
 		if err := os.WriteFile(p, doc, 0o600); err != nil {
 			panic(err)
 		}
 		routes = append(routes, c20Route{"PassesFrom", c20Guarded(func() error {
-			_, err := verifapi.NewCompilerLoader().PassesFrom([]string{p})
+			_, err := verifapi.NewCompilerLoader().PassesFrom([]string{filepath.Join(tmp, "a_valid.yaml"), p, filepath.Join(tmp, "z_valid.yaml")})
 			return err
 		})})
 		for _, name := range []string{"route-common.yaml", "route-input.yaml"} {
@@ -926,16 +1072,28 @@ func c20RunRoutes(file string, doc []byte, tmp string) []c20Route {
 				})})
 		}
 	case "veneers":
-		c20Scaffold(tmp)
-		if err := os.WriteFile(filepath.Join(tmp, "veneersdir", "veneers.yaml"), doc, 0o600); err != nil {
+		c20Scaffold(tmp, file, valid)
+		p := filepath.Join(tmp, "veneersdir", "veneers.yaml")
+		if err := os.WriteFile(p, doc, 0o600); err != nil {
 			panic(err)
 		}
+		routes = append(routes, c20Route{"RewriterFrom[valid,file,valid]", c20Guarded(func() error {
+			_, err := verifapi.NewVeneersLoader().RewriterFrom([]string{filepath.Join(tmp, "veneersdir", "a_valid.yaml"), p,
+				filepath.Join(tmp, "veneersdir", "z_valid.yaml")}, verifapi.RewriteConfig{})
+			return err
+		})})
 		routes = append(routes, c20Route{"pipeline:transformations.builders", c20Guarded(func() error {
 			pl, err := verifapi.PipelineFromFile(filepath.Join(tmp, "route-builders.yaml"))
 			if err != nil {
 				return fmt.Errorf("route scaffold does not load: %w", err)
 			}
 			_, err = pl.ContextForLanguage(verifapi.NewGo(verifapi.GoConfig{}), nil)
+			return err
+		})})
+	case "pipeline":
+		p := filepath.Join(tmp, "pipeline.yaml") // written by runLoader
+		routes = append(routes, c20Route{"PipelineFromFile+Parameters", c20Guarded(func() error {
+			_, err := verifapi.PipelineFromFile(p, verifapi.PipelineParameters(map[string]string{"extra": "value"}))
 			return err
 		})})
 	}
@@ -948,6 +1106,7 @@ func c20Run(args []string) int {
 	klp := fs.String("kloader", "", "loader grammar (json)")
 	kpp := fs.String("kpublished", "", "published grammar (json)")
 	unknown := fs.String("unknown", "zz_unknown", "the unknown key")
+	siblings := fs.Bool("siblings", false, "fill the other root-level lists with one valid entry each")
 	fs.Parse(args)
 	kl, kp := loadGrammar(*klp), loadGrammar(*kpp)
 	tmp, err := os.MkdirTemp("", "c20-run-")
@@ -1012,10 +1171,28 @@ func c20Run(args []string) int {
 					runtime.GC()
 				}
 				c := cases[i]
-				r := &renderer{kl: kl, kp: kp, unknown: *unknown, file: c.File}
+				r := &renderer{kl: kl, kp: kp, unknown: *unknown, file: c.File, siblings: *siblings}
 				injs := []injection{}
-				doc := r.build(c, 1, &injs)
-				rec := c20Record{ID: i + 1, Src: "tlc", File: c.File, Case: c, Doc: doc, Inj: injs, Stale: r.stale}
+				raw := r.build(c, 1, &injs)
+				rec := c20Record{ID: i + 1, Src: "tlc", File: c.File, Case: c, Doc: hoistMerge(raw), Inj: injs, Stale: r.stale}
+				mustYAML := func(v any) string {
+					b, err := yaml.Marshal(v)
+					if err != nil {
+						panic(err)
+					}
+					return string(b)
+				}
+				switch c.Carrier {
+				case "merge":
+					rec.text = strings.ReplaceAll(mustYAML(raw), c20MergeMark+":", "<<:")
+				case "bom":
+					rec.text = "\ufeff" + mustYAML(raw)
+				case "seconddoc":
+					second := map[string]any{r.unknown: "x"}
+					rec.Extra = []any{second}
+					rec.text = mustYAML(raw) + "---\n" + mustYAML(second)
+					rec.Inj = append(rec.Inj, injection{At: []string{}, Key: r.unknown, Ldr: kl[c.File].Root, Pub: kp[c.File].Root})
+				}
 				var buf bytes.Buffer
 				emitRecord(json.NewEncoder(&buf), r, &rec, dir)
 				out[i] = buf.Bytes()
@@ -1030,15 +1207,33 @@ func c20Run(args []string) int {
 }
 
 func emitRecord(enc *json.Encoder, r *renderer, rec *c20Record, tmp string) {
-	y, err := yaml.Marshal(rec.Doc)
-	if err != nil {
-		panic(err)
+	y := []byte(rec.text)
+	if rec.text == "" {
+		var err error
+		if y, err = yaml.Marshal(rec.Doc); err != nil {
+			panic(err)
+		}
+	}
+	if rec.Extra == nil {
+		rec.Extra = []any{}
 	}
 	rec.YAML = string(y)
 	rec.Nodes = []treeNode{}
 	r.tree(rec.Doc, []string{}, r.kl[rec.File].Root, &rec.Nodes)
+	for i, e := range rec.Extra {
+		more := []treeNode{}
+		r.tree(e, []string{}, r.kl[rec.File].Root, &more)
+		for _, n := range more {
+			n.Doc = i + 2
+			rec.Nodes = append(rec.Nodes, n)
+		}
+	}
 	rec.Loader = runLoader(rec.File, y, tmp)
-	rec.Routes = c20RunRoutes(rec.File, y, tmp)
+	valid, err := yaml.Marshal(r.minimal(r.kl[rec.File].Root, 0))
+	if err != nil {
+		panic(err)
+	}
+	rec.Routes = c20RunRoutes(rec.File, y, tmp, valid)
 	if err := enc.Encode(rec); err != nil {
 		panic(err)
 	}
@@ -1267,15 +1462,17 @@ func c20Doc(args []string) int {
 	id := 0
 	for _, line := range bytes.Split(bytes.TrimSpace(b), []byte("\n")) {
 		var req struct {
-			File string `json:"file"`
-			Doc  any    `json:"doc"`
+			File  string `json:"file"`
+			Doc   any    `json:"doc"`
+			Extra []any  `json:"extra"`
+			Text  string `json:"text"` // the file exactly as written (merge keys, BOM, several documents), when known
 		}
 		if err := json.Unmarshal(line, &req); err != nil {
 			panic(err)
 		}
 		id++
 		r := &renderer{kl: kl, kp: kp, unknown: *unknown, file: req.File}
-		rec := c20Record{ID: id, Src: "doc", File: req.File, Doc: req.Doc, Inj: []injection{}}
+		rec := c20Record{ID: id, Src: "doc", File: req.File, Doc: req.Doc, Inj: []injection{}, Extra: req.Extra, text: req.Text}
 		// injections = keys the loader grammar does not know, for the report
 		nodes := []treeNode{}
 		r.tree(req.Doc, []string{}, kl[req.File].Root, &nodes)
